@@ -196,8 +196,8 @@ def run(p: Program, rep: Report, tier: str) -> None:
             # asyncio: join only after cancel() returned False
             ok = False
             for j in joins:
-                g = [ast.unparse(t_) for t_, pol in _guards(j, rs) if pol]
-                if any(".cancel()" in x and x.startswith("not ") for x in g):
+                from ..common import norm_guards as _ng
+                if any(ast.unparse(t_).endswith(".cancel()") and pol is False for t_, pol in _ng(j, rs.node)):
                     ok = True
             if joins and ok:
                 rep.ok("R6.3", "asgi: the relay task's outcome is read only after cancel() returned False (task already finished; a pending task is cancelled, which interrupts a blocked put)")
